@@ -282,13 +282,13 @@ PROPS["C05"] = {
                 ["SemWait." + t for t in ["C05_cancel_reason", "C05_cancel_reason_enqueued", "C05_cancel_consumed_step", "C05_cancel_zero_takes_token", "C05_cancel_no_missed",
                  "C05_cancel_unlock_needs_empty", "C05_cancel_p_deadline", "C05_cancel_deadline_bound", "C05_cancel_l65_notified"]],
     "layers": ["cv", "mux"],
-    "family_layers": {"cv": ["semwait", "cv", "mux"], "cv_raw": ["cv", "mux"], "muwait": ["muc", "mux"], "muc": ["semwait", "muc", "mux"], "cancel_only": ["semwait", "cv", "muc", "mux"], "timed_contended": ["cv", "muc", "mux"]},
+    "family_layers": {"cv": ["semwait", "cv", "mux"], "cv_raw": ["cv", "mux"], "muwait": ["muc", "mux"], "muc": ["semwait", "muc", "mux"], "cancel_only": ["semwait", "cv", "muc", "mux"], "cancel_children": ["semwait", "mux"], "timed_contended": ["cv", "muc", "mux"]},
     "oracles": {"early-timeout", "bad-cancel", "bad-result", "muwait-result", "swallowed-wakeup", "exclusion", "exclusion-ann", "stuck", "steplimit", "panic", "crash", "dead-object"},
-    "plan": {"quick": [("cv", 120, 8), ("cv_raw", 40, 8), ("muwait", 100, 8), ("muc", 80, 6), ("cancel_only", 120, 10), ("timed_contended", 100, 10)],
-             "thorough": [("cv", 1200, 16), ("cv_raw", 400, 16), ("muwait", 1000, 16), ("muc", 800, 12), ("cancel_only", 1200, 20), ("timed_contended", 1000, 20)]},
+    "plan": {"quick": [("cv", 120, 8), ("cv_raw", 40, 8), ("muwait", 100, 8), ("muc", 80, 6), ("cancel_only", 120, 10), ("cancel_children", 80, 10), ("timed_contended", 100, 10)],
+             "thorough": [("cv", 1200, 16), ("cv_raw", 400, 16), ("muwait", 1000, 16), ("muc", 800, 12), ("cancel_only", 1200, 20), ("cancel_children", 800, 20), ("timed_contended", 1000, 20)]},
     "harness_args": ["checkplain=1"],
     "level_text": "Kernel-checked theorems. cv half (CvFix model of cv.c + sem_wait.c): the value returned by nsync_cv_wait_with_deadline is the recorded outcome of the sleep (C05_result_is_outcome); ETIMEDOUT only with the deadline reached on the model clock, ECANCELED only with the cancel note notified (C05_timedout, C05_cancelled); once the outcome is non-zero the thread performs no further semaphore wait in this call before re-acquiring the mutex (C05_no_resleep, C05_not_sleeping). mu_wait half (MuC model of mu_wait.c on top of the mutex core): the call returns holding the mutex in the mode it was called with (C05_mode), returns 0 exactly when the condition is true at the return (C05_mu_wait_0), ETIMEDOUT / ECANCELED only for the stated reason (C05_timedout, C05_cancelled), a timed P never outlasts the deadline (C05_timed_p_deadline), and after a non-zero outcome no P is issued in that pass of the wait loop (C05_no_resleep_partial). The shared sleep nsync_sem_wait_with_cancel_ (SemWait model: sem_wait.c with the note concretely — flag, deadline, list, mutex): ECANCELED only with the note notified or expired, ETIMEDOUT only with the deadline reached, 0 only with a token consumed (C05_cancel_reason); the P is issued with min(deadline, note expiry) and a timeout with the note's deadline nearer is converted to ECANCELED after the waiter itself notified the note (C05_cancel_p_deadline, C05_cancel_deadline_bound); and 'needs no further wake-up' in safety form: a notified note never leaves a waiter asleep unless its record is queued with the notifier holding the note's mutex, or a post is owed or pending (C05_cancel_no_missed — the control trace with the re-read under the lock removed is accepted by the variant model and ends with the waiter lost). Tied to the code by lockstep (cv / cv_raw families through CvFix, muwait / muc families through MuC, with cancel notes fresh / already notified / expiring, reader and writer mode) and by the interpreter's assertions on every wait return (shadow lock mode, virtual clock vs deadline, note flag, value of the condition).",
-    "level_note": "The literal reading 'no further semaphore wait' is REFUTED for nsync_mu_wait_with_deadline (C05_no_resleep_full_refuted: a timed-out waiter re-acquires through lock_slow and may sleep there; with the condition false it goes round the loop again with an already expired deadline) — this is consistent with the property's own wording ('returns as soon as the mutex can be re-acquired'), so it is not a finding. 'Holding the lock in the same mode' for the cv half rests on the mutex layer (C01/C02) and the interpreter's shadow mode. The cancel note is abstract in the CvFix and MuC models and concrete in SemWait (one flat note per record). Fair termination is a paper step; termination of every explored execution is checked (oracle stuck).",
+    "level_note": "The literal reading 'no further semaphore wait' is REFUTED for nsync_mu_wait_with_deadline (C05_no_resleep_full_refuted: a timed-out waiter re-acquires through lock_slow and may sleep there; with the condition false it goes round the loop again with an already expired deadline) — this is consistent with the property's own wording ('returns as soon as the mutex can be re-acquired'), so it is not a finding. 'Holding the lock in the same mode' for the cv half rests on the mutex layer (C01/C02) and the interpreter's shadow mode. The cancel note is abstract in the CvFix and MuC models (they assume the waiter's own lazy-expiry notify does not sleep — with children of the cancel note being disconnected it may, in WAIT_FOR_NO_CHILDREN; such executions, family cancel_children, are replayed through SemWait and MuX only) and concrete in SemWait (one flat note per record). Fair termination is a paper step; termination of every explored execution is checked (oracle stuck).",
 }
 
 PROPS["C06"] = {
